@@ -84,6 +84,15 @@ class MetaString(type):
         else:
             raise ValueError(f"{value} not a string")
 
+    def _check_update(cls, buffer, offset, value):
+        """The space of a string is fixed when it is created."""
+        if cls._size is None:
+            reserved = _to_slot_size(Int64._from_buffer(buffer, offset))
+            if cls._inspect_args(value).size > reserved:
+                raise ValueError(
+                    f"`{value}` is too large to fit in {reserved} bytes"
+                )
+
     def _get_data(cls, buffer, offset):
         ll = Int64._from_buffer(buffer, offset)
         return buffer.to_bytearray(offset + 8, ll - 8)
